@@ -173,6 +173,7 @@ func scratchHoldsOnlyFreshMemory(c *Ctx, rule string) {
 }
 
 func runC07(c *Ctx) {
+	alertClearedOnlyWhenConsumed(c, "A1-alert-cleared-only-when-consumed")
 	bw := NewByteWriters(c)
 	root := c.Fn(procT + ".processPkt")
 	if root == nil {
